@@ -622,7 +622,7 @@ impl G {
     }
 }
 
-fn tags_of(g: &G, inputs: [Val; 2], node: Option<usize>) -> Vec<String> {
+fn tags_of(g: &G, inputs: [Val; 2], earlier: &[[Val; 2]], node: Option<usize>) -> Vec<String> {
     let mut t = Vec::new();
     let Some(x) = node else { return t };
     let f8 = g.f8_nodes(inputs);
@@ -648,7 +648,8 @@ fn tags_of(g: &G, inputs: [Val; 2], node: Option<usize>) -> Vec<String> {
     // F14: the failing node is on (or reads from) a cycle that contains a
     // firewall: the cycle is closed by an edge that the repair pass never
     // re-reads because dirtiness does not cross the firewall
-    {
+    let cycle_with_firewall = |inp: [Val; 2]| {
+        let en = g.enabled(inp);
         let mut reach = en.clone();
         for k in 0..g.n {
             for i in 0..g.n {
@@ -659,18 +660,39 @@ fn tags_of(g: &G, inputs: [Val; 2], node: Option<usize>) -> Vec<String> {
                 }
             }
         }
-        let mut cx = seen.clone();
-        cx[x] = true;
-        let hit = (0..g.n).any(|y| {
-            cx[y]
+        (0..g.n).any(|y| {
+            (y == x || reach[x][y])
                 && reach[y][y]
                 && (0..g.n).any(|z| (z == y || (reach[y][z] && reach[z][y])) && g.fw[z])
-        });
-        if hit {
-            t.push("F14-cycle-through-firewall".to_string());
-        }
+        })
+    };
+    if cycle_with_firewall(inputs) {
+        t.push("F14-cycle-through-firewall".to_string());
+    } else if t.is_empty() && earlier.iter().any(|e| cycle_with_firewall(*e)) {
+        // F20: the same, seen from the other side: under EARLIER inputs of
+        // this history the node was on (or read from) a cycle that contains a
+        // firewall; the edit removed the cycle, but what was recorded while
+        // the members were unwound does not let the repair reach them
+        t.push("F20-cycle-with-firewall-removed-by-edit".to_string());
     }
     t
+}
+
+/// every input state the history went through before `step`
+fn inputs_before(h: &[Op], step: usize) -> Vec<[Val; 2]> {
+    let mut out = vec![[0, 0]];
+    let mut inputs = [0, 0];
+    for op in h.iter().take(step) {
+        if let Op::Session { writes, .. } = op {
+            for w in writes {
+                if let W::Set(b, v) = w {
+                    inputs[*b as usize] = *v;
+                }
+            }
+            out.push(inputs);
+        }
+    }
+    out
 }
 
 pub fn check() -> i32 {
@@ -763,6 +785,7 @@ pub fn check() -> i32 {
                                 tags: tags_of(
                                     &g,
                                     inputs_after(&case.hist, case.finding.step),
+                                    &inputs_before(&case.hist, case.finding.step + 1),
                                     case.finding.key.and_then(|k| match k {
                                         Key::C(j) => Some(j as usize),
                                         _ => None,
@@ -822,7 +845,7 @@ pub fn check() -> i32 {
                     if f.msg.contains("its executor was cancelled together with its caller") {
                         t.push("F18-cycle-member-cancelled-with-its-caller".into());
                     } else if !f.msg.contains("on a cycle of the callee registrations made before the cycle was detected") {
-                        t.extend(tags_of(&p.g, p.inputs, node));
+                        t.extend(tags_of(&p.g, p.inputs, &[], node));
                     }
                     t
                 },
